@@ -85,6 +85,18 @@ class SnapshotNetwork(ChargingNetwork):
         )
 
 
+_JSON_OCC: List[List[Optional[str]]] = []
+
+
+class JsonLogNetwork(ChargingNetwork):
+    """like SnapshotNetwork, but the log is a module-level list: no instance attribute is added, so that
+    `to_json` / `from_json` treat the object exactly like the plain class (an attribute `__init__` sets that `_to_dict`
+    does not know would be dumped by the generic fallback and never restored — an artefact of the harness)."""
+
+    def post_charging_update(self):
+        _JSON_OCC.append([(e.ev.session_id if e.ev is not None else None) for e in self._EVSEs.values()])
+
+
 class ScriptedAlgo(BaseAlgorithm):
     """period ↦ schedule dict (possibly multi-period), `default` otherwise; may fail at chosen periods."""
 
@@ -318,6 +330,60 @@ def run_impl_resume(case: dict, hooks: Optional[Hooks] = None) -> dict:
             err2 = run_sim(sim)
             obs = observe(sim, ctx, err2)
             obs["first"] = first
+        obs["noise_draws"] = ns["k"]
+    return obs
+
+
+def _all_evs_of(sim) -> Dict[str, object]:
+    """session id -> EV object, from the places a simulator keeps EVs (history, stations, pending events)"""
+    by: Dict[str, object] = {}
+    for sid, ev in sim.ev_history.items():
+        by.setdefault(sid, ev)
+    for evse in sim.network._EVSEs.values():
+        if evse.ev is not None:
+            by.setdefault(evse.ev.session_id, evse.ev)
+    for _ts, e in sim.event_queue.queue:
+        if hasattr(e, "ev"):
+            by.setdefault(e.ev.session_id, e.ev)
+    return by
+
+
+def run_impl_resume_json(case: dict, hooks: Optional[Hooks] = None, keep: Optional[dict] = None) -> dict:
+    """Run; when run() raises, write the simulator to JSON, load it back, hand the loaded simulator the SAME algorithm
+    object (update_scheduler) and run() it (crash / to_json / from_json / resume).  By C09 the completed simulation must
+    equal the one resumed in place, so the observation has the shape of `run_impl_resume` and is compared with the same
+    model answer.  Sessions that can no longer be found in the loaded simulator are listed under 'missing_evs'.
+    `keep`, when given, receives the final simulator and its context (keep["sim"], keep["ctx"]) for further observation."""
+    from acnportal.acnsim import Simulator as _Sim
+    hooks = hooks or Hooks()
+    if hooks.network_cls is None:
+        hooks.network_cls = JsonLogNetwork
+    del _JSON_OCC[:]
+    with noise_stream(case.get("noise", [])) as ns:
+        sim, ctx = build_sim(case, hooks)
+        err = run_sim(sim)
+        if err is None:
+            obs = observe(sim, ctx, None)
+        else:
+            first = observe(sim, ctx, err)
+            first["occ"] = [list(r) for r in _JSON_OCC]
+            with warnings.catch_warnings():
+                warnings.simplefilter("ignore")
+                sim2 = _Sim.from_json(sim.to_json())
+                sim2.update_scheduler(ctx["scheduler"])
+            by = _all_evs_of(sim2)
+            ctx2 = {"network": sim2.network, "scheduler": ctx["scheduler"], "hooks": hooks,
+                    "evs": [by[s["session"]] for s in case["sessions"] if s["session"] in by]}
+            err2 = run_sim(sim2)
+            obs = observe(sim2, ctx2, err2)
+            obs["first"] = first
+            obs["missing_evs"] = [s["session"] for s in case["sessions"] if s["session"] not in by]
+            obs["same_object"] = sim2 is sim
+            obs["via_json"] = True
+            sim, ctx = sim2, ctx2
+        if keep is not None:
+            keep["sim"], keep["ctx"] = sim, ctx
+        obs["occ"] = [list(r) for r in _JSON_OCC]
         obs["noise_draws"] = ns["k"]
     return obs
 
